@@ -456,6 +456,8 @@ CYCLIC_TEMPLATES = [
     'import xml.parsers.expat.model, pyexpat.model\npyexpat.model\nxml.parsers\nimport os.path, math\nmath\nos',
     'import cyc_e\ncyc_e.e_other.FromF.f_attr.e_own.x\ncyc_e.cyc_f.cyc_e.e_own',
     'from cyc_f import FromF\nFromF().f_attr.cyc_f.f_own',
+    'from fx_bom import *\nbom_value\nBomClass.battr',
+    'import fx_bom\nfx_bom.BomClass().battr\nfx_bom.bom_value',
     'import cyc_e, cyc_f\nclass K(cyc_f.FromF):\n    def m(self):\n        self.q = cyc_e.e_other.FromF()\n        return self.q.f_attr\nK().m().cyc_f.x',
     'class A:\n    def __get__(self, *a): return A()\n    @A\n    def q(self): return self.q\nA().q.x',
 ]
